@@ -75,6 +75,9 @@ def g_history(draw):
         elif name == "lend_to_other_machine":
             op["factor"] = gen.choice(draw, [0.3, 2.0, 50.0])
             op["train"] = gen.boolean(draw)
+        # evaluating a likelihood refreshes whatever the machine derives lazily, so it is itself an operation of the
+        # history: after some operations only the floors invariant (which reads nothing derived) is looked at
+        op["observe"] = gen.choice(draw, [True, True, False])
         ops.append(op)
     return {"p": p, "probe": probe, "train": train, "ops": ops, "map": gen.choice(draw, [False, False, True]),
             "C2": gen.integer(draw, 1, 5)}
@@ -84,13 +87,15 @@ def visible(g):
     return (np.array(g.weights, float), np.array(g.means, float), np.array(g.variances, float))
 
 
-def check_invariant(ctx, g, probe, after):
+def check_invariant(ctx, g, probe, after, observe=True):
     from bob.learn.em import GMMMachine
 
     w, mu, var = visible(g)
     thr = g.variance_thresholds
     thr_b = np.broadcast_to(np.asarray(thr, float), var.shape)
     ctx.check((var >= thr_b).all(), "after %s: a variance is below its current floor" % after, "variance-below-floor")
+    if not observe:
+        return
     fresh = GMMMachine(len(w))
     fresh.variance_thresholds = copy.deepcopy(thr)
     fresh.means = mu.copy()
@@ -208,6 +213,7 @@ def c_history(ctx, case):
                     os.remove(path)
                 except OSError:
                     pass
-        check_invariant(ctx, g, probe, "op %d (%s)" % (i + 1, name))
+        last = i == len(case["ops"]) - 1
+        check_invariant(ctx, g, probe, "op %d (%s)" % (i + 1, name), observe=bool(op.get("observe", True)) or last)
     ctx.note(len(names) >= 4 and floor_after_var and weights_after_ll, "map" if case["map"] else "ml",
              "ops=%d" % len(names), *sorted(set("op:" + n for n in names)))
